@@ -2,6 +2,7 @@ INIT SInit
 NEXT SNext
 CONSTRAINT Bounded
 INVARIANT RuleFaithful
+INVARIANT KeyFaithful
 INVARIANT LabelsInjective
 INVARIANT CacheTruthfulS
 INVARIANT SkippedAreVerified
